@@ -511,6 +511,82 @@ pub fn check_stats(out: &mut Out, d: &mut Driver, t: &mut Totals, replay: &dyn F
     }
 }
 
+/// C17 (3b): one publication interval with more distinct client addresses than any chunking of
+/// the snapshot could fit into the queue: 20 000 datagrams from 20 000 loopback source addresses
+/// to a server with per-client statistics and a queue as small as a one-worker binary's; after the
+/// next status tick the published snapshot(s) plus the recorder must account for every datagram.
+fn population_history(out: &mut Out, rng: &mut Rng) {
+    let mut cfg = HConfig::new(&rng.bytes(32));
+    cfg.client_stats = true;
+    cfg.queue_cap = 2;
+    cfg.status_interval = std::time::Duration::from_secs(20); // status timer every 2 s
+    let Ok(mut srv) = crate::inproc::Inproc::start(cfg) else {
+        out.inconclusive("server start failed");
+        return;
+    };
+    let port = srv.addr.port();
+    let total: u32 = 20_000;
+    let base = u32::from_be_bytes([127, 2, 0, 0]) + (rng.below(200) as u32) * 65_536;
+    let t0 = std::time::Instant::now();
+    let mut sent = 0u64;
+    let mut off = 0u32;
+    while off < total {
+        let n = 150.min(total - off);
+        sent += crate::c18::send_from_many_sources(port, base + off, n);
+        off += n;
+        if srv.step(1).is_err() {
+            out.inconclusive("server died in the population history");
+            return;
+        }
+    }
+    // everything received?
+    let mut got = 0u64;
+    for _ in 0..50 {
+        let _ = srv.step(1);
+        got = srv.stats().map(|s| s.valid + s.invalid).unwrap_or(0);
+        let mut queued = 0u64;
+        // (nothing should have been published yet if the traffic fitted into one interval)
+        if got + queued >= sent {
+            break;
+        }
+        queued += 0;
+    }
+    let fitted = t0.elapsed() < std::time::Duration::from_millis(1800);
+    // wait for the status tick that publishes the table
+    let t1 = std::time::Instant::now();
+    let mut published = 0u64;
+    let mut snapshots = 0;
+    while t1.elapsed() < std::time::Duration::from_secs(5) {
+        let _ = srv.step(1);
+        while let Some(snap) = srv.queue.pop() {
+            snapshots += 1;
+            for c in snap {
+                published += (c.invalid_requests + c.rfc_requests + c.classic_requests) as u64;
+            }
+        }
+        if published > 0 && srv.stats().map(|s| s.valid + s.invalid).unwrap_or(1) == 0 {
+            break;
+        }
+        std::thread::sleep(std::time::Duration::from_millis(20));
+    }
+    let left = srv.stats().map(|s| s.valid + s.invalid).unwrap_or(0);
+    out.case(fnv64(&base.to_le_bytes()) ^ 0x9090, true);
+    out.obs("population_histories", 1);
+    out.obs("population_datagrams", sent as i64);
+    if got < sent || !fitted {
+        out.inconclusive("population history: datagrams lost before the server or traffic did not fit into one interval");
+        return;
+    }
+    out.obs("population_snapshots_popped", snapshots);
+    if published + left != sent {
+        out.violation(
+            "C17 server-recorder differs-from-traffic large-population",
+            &format!("{} datagrams from {} distinct addresses within one status interval: the published snapshot(s) ({} queue entries popped) hold {} events and the recorder {} - {} are unaccounted for", sent, sent, snapshots, published, left, sent as i64 - (published + left) as i64),
+            json!({"kind":"population","addresses":sent}),
+        );
+    }
+}
+
 pub fn run(ctx: &Ctx, out: &mut Out, prop: &str) {
     let mut rng = ctx.rng(&format!("srv-{}", prop));
     crate::inproc::install_shard_logger(ctx.shard, out);
@@ -534,6 +610,10 @@ pub fn run(ctx: &Ctx, out: &mut Out, prop: &str) {
         }
     }
     if prop == "C17" {
+        if ctx.shard % 4 == 0 {
+            population_history(out, &mut rng);
+        }
+        out.floor("population_histories", 1);
         out.floor("stats_snapshots_compared", 200);
         out.floor("stats_upper_bound_checks", 10);
         out.floor("stats_timer_ticks_awaited", 50);
